@@ -8,6 +8,7 @@ import (
 	"github.com/lyraproj/issue/issue"
 	"github.com/lyraproj/pcore/px"
 	"github.com/lyraproj/pcore/types"
+	"github.com/lyraproj/pcore/verifhook"
 )
 
 type (
@@ -74,6 +75,7 @@ func load(c px.Context, name px.TypedName) (interface{}, bool) {
 	}
 	entry := l.LoadEntry(c, name)
 	if entry == nil {
+		verifhook.Point("load.after-lookup")
 		if dl, ok := l.(px.DefiningLoader); ok {
 			dl.SetEntry(name, &loaderEntry{nil, nil})
 		}
@@ -185,6 +187,7 @@ func (l *parentedLoader) HasEntry(name px.TypedName) bool {
 func (l *parentedLoader) LoadEntry(c px.Context, name px.TypedName) px.LoaderEntry {
 	entry := l.parent.LoadEntry(c, name)
 	if entry == nil || entry.Value() == nil {
+		verifhook.Point("parented.between")
 		entry = l.basicLoader.LoadEntry(c, name)
 	}
 	return entry
